@@ -1581,7 +1581,7 @@ pub fn oracle_c18(tier: &str) -> Report {
     }
     let mut sizes: Vec<usize> = vec![0, 1, 55, 56, 63, 64, 65, 119, 120, (1 << 16) - 1, 1 << 16, (1 << 16) + 1, (1 << 24) - 1, 1 << 24, (1 << 24) + 1];
     if thorough(tier) {
-        sizes.extend_from_slice(&[(1usize << 31) - 1, 1 << 31, (1 << 31) + 1, (1usize << 32) - 1, 1 << 32, (1usize << 32) + 1]);
+        sizes.extend_from_slice(&[(1usize << 31) - 1, 1 << 31, (1 << 31) + 1, (1usize << 32) - 1, 1 << 32, (1usize << 32) + 1, (1usize << 32) + 100]);
     }
     let head = b"o.A -> a:\n    1:2:void m():3:4 -> b\no.B -> c:\n";
     let maxn = *sizes.iter().max().unwrap();
@@ -1616,6 +1616,23 @@ pub fn oracle_c18(tier: &str) -> Report {
             if *sec.uuid().as_bytes() != want {
                 rep.fail("the identifier of a section is not the version-5 UUID of the section's bytes",
                          vec![format!("# section 1..{} of a {}-byte input", n + 1, n + 2)], String::new());
+            }
+        }
+    }
+    // a section that starts beyond 2^32 (thorough: the 4 GiB buffer is there anyway)
+    if maxn > (1usize << 32) + 64 {
+        for (a, b) in [((1usize << 32) + 1, (1usize << 32) + 33), ((1usize << 32) - 3, (1usize << 32) + 9), (1usize << 32, (1usize << 32) + 1)] {
+            rep.checks += 1;
+            let mut head2 = buf[..48.min(maxn)].to_vec();
+            head2.reverse();
+            buf[a..a + head2.len().min(b - a)].copy_from_slice(&head2[..head2.len().min(b - a)]);
+            let sec = ProguardMapping::new(&buf[..maxn]).section(a..b);
+            let want = uuid_v5(&ns, &buf[a..b]);
+            if *sec.uuid().as_bytes() != want {
+                rep.fail("the identifier of a section that starts beyond 2^32 is not the version-5 UUID of the section's bytes",
+                         vec![format!("# section {}..{} of a {}-byte input", a, b, maxn)], String::new());
+            } else {
+                rep.nontrivial += 1;
             }
         }
     }
